@@ -54,6 +54,9 @@ type VdrSpec struct {
 	// between the death of mrp (first crash) and its restart a sub-pipeline's
 	// directory is moved out of the pipestance directory and linked back
 	RelocateSub bool `json:"relocate_sub,omitempty"`
+	// what is relocated: "" a sub-pipeline directory; "fork" a stage's fork directory, "job" a
+	// job's real directory (chnkN-u…), "files" a job's files directory
+	RelocLevel string `json:"reloc_level,omitempty"`
 }
 
 // With a linked root: the canonical spelling of the pipestance directory and
@@ -281,7 +284,7 @@ func forkDirOf(rel string) string {
 func (v *vdrRun) snapshot(full bool) *vdrSnapshot {
 	s := &vdrSnapshot{Tree: lstatTree(v.psdir)}
 	for rel, e := range s.Tree {
-		if _, _, ok := stageRegion(rel); ok {
+		if _, _, ok := stageRegion(rel); ok && !v.underReloc(rel) {
 			if _, seen := v.ever[rel]; !seen {
 				v.ever[rel] = e
 			}
@@ -910,6 +913,8 @@ func (v *vdrRun) loop() {
 			v.preFinal = v.snapshot(true)
 			v.collectPreNames(v.preFinal)
 			v.valueChecks(v.preFinal)
+			v.guardChecks()
+			v.runWalkChecks(v.preFinal)
 			r.log("complete", "", string(st))
 			r.ps.VDRKill()
 			r.ps.VerifStorageBarrier()
